@@ -6,6 +6,7 @@ import os
 from fractions import Fraction
 
 from ..core import frac
+from . import _c04ext5 as _ext5
 
 LEVEL = "proof"
 RULE = ("references: pooled, flat, built from a single sample (real log2, spread 0) or whole-number log2 with a spread; +- gc / rmask "
@@ -191,7 +192,8 @@ def gen_cases(rng, tier):
     n = {"quick": 150, "thorough": 1600, "search": 300}[tier]
     # every forced cell once (twice in the thorough tier), then the random cases
     forced = [_case(rng, force=f) for f in (FORCED + ([("dup_cross", "anti", "")] if CROSS_DUP else [])) * (2 if tier == "thorough" else 1)]
-    return forced + [_case(rng, big=(k % 4 == 0)) for k in range(n)]
+    cases = forced + [_case(rng, big=(k % 4 == 0)) for k in range(n)]
+    return cases + _ext5.gen_cases(rng, tier)   # round 5: after everything else, so the earlier case stream is unchanged
 
 
 def corpus():
@@ -394,6 +396,8 @@ def _run(i, tgt, anti, ref, record=None):
 
 
 def run_impl(case):
+    if case["op"] in _ext5.EXT_OPS:
+        return _ext5.run_impl(case, {"samp": _samp, "ref": _ref})
     import random
     import numpy as np
     from cnvlib import descriptives, smoothing
@@ -490,6 +494,8 @@ def _rows_json(rows, n):
 
 
 def to_line(case, impl):
+    if case["op"] in _ext5.EXT_OPS:
+        return _ext5.to_line(case, impl)
     i = case["in"]
     ref = i["ref_f"]
     if (i.get("rep") or {}).get("ref_nodepth"):
@@ -510,12 +516,16 @@ def classify_null_bins(case, impl, resp):
     """finding W: zero-coverage bins stay at the -20 sentinel whatever the depth; they take part in the
     antitarget centring (skip_low=False) and in the rolling medians of the corrections, so the result depends
     (slightly, or grossly on tiny tables) on the depth scale"""
+    if case["op"] in _ext5.EXT_OPS:
+        return False
     return any(r[5] == 0 for r in case["in"]["anti_f"] + case["in"]["tgt_f"])
 
 
 def classify_single_bin_class(case, impl, resp):
     """finding X: a class (targets or antitargets) with exactly one usable bin makes the smoothing fraction
     max(0.01, n**-0.5) = 1.0, which rolling_median rejects"""
+    if case["op"] in _ext5.EXT_OPS:
+        return False
     return (isinstance(impl, dict) and impl.get("__error__") == "ValueError" and "width must be" in impl.get("msg", "")
             and "(got 1.0)" in impl.get("msg", ""))
 
@@ -555,6 +565,8 @@ def _centred_before_shift(case, rows):
 
 
 def judge(case, impl, resp):
+    if case["op"] in _ext5.EXT_OPS:
+        return _ext5.judge(case, impl, resp)
     if isinstance(impl, dict) and impl.get("nan"):
         # a class of emitted bins with fewer than two bins that have any coverage has no residual spread to
         # estimate (biweight midvariance of <= 1 value): the weights are undefined there by construction
@@ -613,6 +625,8 @@ def judge(case, impl, resp):
 
 
 def nontrivial(case, impl, resp):
+    if case["op"] in _ext5.EXT_OPS:
+        return _ext5.nontrivial(case, impl, resp)
     i = case["in"]
     if isinstance(impl, dict) and ("__error__" in impl or impl.get("nan")):
         return "__error__" in impl
@@ -620,6 +634,8 @@ def nontrivial(case, impl, resp):
 
 
 def shrink(case):
+    if case["op"] in _ext5.EXT_OPS:
+        return
     i = case["in"]
     for key in ("tgt_f", "anti_f"):
         rows = i[key]
